@@ -105,7 +105,8 @@ def batch_scenarios(tier, seed, twin):
 
 def run_batches(prop, tier, seed, wd, info, verdict, twin):
     scs, meta = batch_scenarios(tier, seed, twin)
-    events, rc, err = run_driver_parallel(scs, wd, tag="batches", nproc=4 if tier == "quick" else 12, timeout=3000)
+    events, rc, err = run_driver_parallel(scs, wd, tag="batches", nproc=4 if tier == "quick" else 12, timeout=3000,
+                                          keep={"Begin", "End", "Invoke", "Release", "Respond", "BadSig", "DriverError"})
     if rc != 0:
         raise Inconclusive("batch driver exited %s: %s" % (rc, err[-400:]))
     by = split_scenarios(events)
